@@ -1,6 +1,7 @@
 """Path analyses over ir.Function used by several rules."""
 import ir
 from ir import Resolver, loc_class, field_of, root_of
+from ir import regs_in
 
 def strip_casts(fn, v):
     """follow bitcast / ptr casts back to the underlying value"""
@@ -228,28 +229,54 @@ def is_named(name):
         return c[0] == 'field' and c[2] in (name, name + '_r')
     return p
 
-def value_slice(fn, v, depth=0, seen=None):
-    """instructions that compute value v inside fn (backward slice through registers; loads are leaves)"""
+def named_temporary(fn, load):
+    """the value stored into the local that `load` reads, when that local is a named temporary: an alloca whose only uses are
+    loads and exactly one store of a value into it (its address never escapes).  `t = a + b; if (t > c)` then depends on
+    what `a + b` depends on.  Parameters qualify too (their one store spills the argument, which is a leaf).  Else None."""
+    cache = fn.__dict__.setdefault('_named_tmp', {})
+    p = load.ops[0]
+    if not isinstance(p, tuple) or p[0] != 'reg': return None
+    if p[1] in cache: return cache[p[1]]
+    val = None
+    a = fn.def_of(p)
+    if a is not None and a.op == 'alloca':
+        stores = []
+        for u in fn.uses().get(p[1], ()):
+            if u.op == 'load' and u.ops[0] == p: continue
+            if u.op == 'store' and len(u.ops) > 1 and u.ops[1] == p and p[1] not in regs_in(u.ops[0]): stores.append(u); continue
+            stores = None; break
+        if stores is not None and len(stores) == 1: val = stores[0].ops[0]
+    cache[p[1]] = val
+    return val
+
+def value_slice(fn, v, depth=0, seen=None, temps=False):
+    """instructions that compute value v inside fn (backward slice through registers; loads are leaves; with temps=True the
+    load of a named temporary continues with the value assigned to it)"""
     if seen is None: seen = set()
     out = []
     if not isinstance(v, tuple) or v[0] != 'reg' or depth > 40: return out
     d = fn.def_of(v)
     if d is None or d in seen: return out
     seen.add(d); out.append(d)
-    if d.op in ('load', 'alloca'): return out
-    if d.op in ('call', 'invoke'):
-        for a in d.ops: out += value_slice(fn, a, depth + 1, seen)
+    if d.op == 'load':
+        t = named_temporary(fn, d) if temps else None
+        if t is not None: out += value_slice(fn, t, depth + 1, seen, temps)
         return out
-    for o in d.ops: out += value_slice(fn, o, depth + 1, seen)
+    if d.op == 'alloca': return out
+    if d.op in ('call', 'invoke'):
+        for a in d.ops: out += value_slice(fn, a, depth + 1, seen, temps)
+        return out
+    for o in d.ops: out += value_slice(fn, o, depth + 1, seen, temps)
     return out
 
 def cond_loads(fn, br, res=None):
-    """locations loaded while computing the condition of conditional branch / switch `br`.
+    """locations loaded while computing the condition of conditional branch / switch `br` (a named temporary tested by
+    the condition counts with what was assigned to it).
     For && / || chains clang -O0 emits separate branches, so each branch sees only its own operand."""
     res = res or Resolver(fn)
     if not br.ops: return []
     out = []
-    for d in value_slice(fn, br.ops[0]):
+    for d in value_slice(fn, br.ops[0], temps=True):
         if d.op == 'load': out.append((d, res.loc(d.ops[0])))
     return out
 
